@@ -581,6 +581,12 @@ def check_models(case):
 
 @st.composite
 def int_cases(draw, tier):
+    if draw(st.integers(0, 5)) == 0:
+        # words wider than a float's mantissa or a machine word: sampled argument rows (corners + drawn numbers)
+        return {'in_len': draw(st.sampled_from([20, 27, 32, 33, 40, 64, 70])), 'out_len': draw(st.sampled_from([53, 54, 55, 63, 64, 65, 100, 130])),
+                'big_endian': draw(st.booleans()), 'binary': draw(st.booleans()), 'a': draw(st.integers(0, 7)), 'b': draw(st.integers(0, 7)),
+                'op': draw(st.sampled_from(['lin', 'mul', 'sq', 'mul', 'sq'])),
+                'rows': draw(st.lists(st.integers(0, 2 ** 140 - 1), min_size=4, max_size=8))}
     return {'in_len': draw(st.integers(1, 4)), 'out_len': draw(st.integers(1, 6)), 'big_endian': draw(st.booleans()),
             'binary': draw(st.booleans()), 'a': draw(st.integers(0, 7)), 'b': draw(st.integers(0, 7)),
             'op': draw(st.sampled_from(['lin', 'mul', 'sq']))}
@@ -612,7 +618,12 @@ def check_int_wrappers(case):
             v = (v << 1) | (1 if x else 0)
         return v
 
-    for args in itertools.product((False, True), repeat=n):
+    if 'rows' in case:
+        full = (1 << n) - 1
+        rows = [tuple(bool((r >> k) & 1) for k in range(n)) for r in [full, full - 1, full - 2, 1 << (n - 1)] + [x & full for x in case['rows']]]
+    else:
+        rows = itertools.product((False, True), repeat=n)
+    for args in rows:
         if case['binary']:
             val = fun(to_int(args[:il]), to_int(args[il:]))
         else:
@@ -624,7 +635,7 @@ def check_int_wrappers(case):
         got = list(pf.evaluate(list(args)))
         if got != bits:
             raise Violation('int_wrapper', f'{"binary" if case["binary"] else "unary"} big_endian={be} args={args}: {got} expected {bits}')
-    return {'nt': True, 'cls': {'binary' if case['binary'] else 'unary', 'big_endian' if be else 'little_endian'}}
+    return {'nt': True, 'cls': {'binary' if case['binary'] else 'unary', 'big_endian' if be else 'little_endian'} | ({'out_len>=54'} if ol >= 54 else set())}
 
 
 def utilities(tier):
@@ -655,6 +666,14 @@ def utilities(tier):
             got0 = [tuple(v) for v in input_iterator_with_fixed_sum(n, w)]
             if set(got0) != {tuple(bool((y >> (n - 1 - i)) & 1) for i in range(n)) for y in range(1 << n) if bin(y).count('1') == w}:
                 raise Violation('util:input_iterator_with_fixed_sum', f'n={n} k={w} default negations')
+    for j in (2 ** 53 - 1, 2 ** 53, 2 ** 53 + 1, 2 ** 53 + 2 ** 20 + 3, 2 ** 60 + 12345, 2 ** 64 - 1, 2 ** 64 + 5, 2 ** 100 + 7, 3 ** 70):
+        for n in (j.bit_length(), j.bit_length() + 3):
+            x = [bool((j >> (n - 1 - i)) & 1) for i in range(n)]
+            if input_to_canonical_index(x) != j:
+                raise Violation('util:input_to_canonical_index', f'{n} bits of {j} -> {input_to_canonical_index(x)}')
+            if list(canonical_index_to_input(j, n)) != x:
+                raise Violation('util:canonical_index_to_input', f'{j},{n} -> {list(canonical_index_to_input(j, n))}')
+            checked += 1
     return {'evaluations': checked, 'distinct_nontrivial': checked, 'exhaustive': True,
             'samples': ['index/input/bit utilities for n<=6; fixed-weight iterator for all n<=6, all negations n<=4']}
 
@@ -673,7 +692,7 @@ SPEC = {
              'netlist circuits against their reference table, models with generated don\'t-cares (check/check_at/'
              'get_model_truth_table/define incl. incomplete definitions), integer wrappers in both bit orders, utility '
              'functions. Non-trivial: non-constant function.'
-             ' Added during the build: sub-check wide (structured functions of 6-10 inputs: folds, gated folds, columns that are zero below a row threshold, thresholds, input copies), zero-input functions, a callable answering tuples, transported models.'),
+             ' Added during the build: sub-check wide (structured functions of 6-10 inputs: folds, gated folds, columns that are zero below a row threshold, thresholds, input copies), zero-input functions, a callable answering tuples, transported models, integer wrappers with words of 20-70 bits in and 53-130 bits out on sampled rows.'),
     'assumptions': ['definitions in props/c12.py written from the protocol docstrings'],
     'subs': [Sub('sampled', func_cases, check_sampled, {'quick': 320, 'thorough': 30000}),
              Sub('wide', wide_cases, check_wide, {'quick': 240, 'thorough': 8000}),
@@ -683,7 +702,7 @@ SPEC = {
     'sharded': {'small_function_sweep': sweep},
     'replay': {'small_function_sweep': replay_sweep},
     'exhaustive': {'utilities': utilities},
-    'required_classes': {'sampled': ['kind:symmetric', 'kind:threshold', 'kind:input_like', 'n=4'],
+    'required_classes': {'sampled': ['kind:symmetric', 'kind:threshold', 'kind:input_like', 'n=4'], 'int_wrappers': ['out_len>=54'],
                          'wide': ['n=7', 'n=8', 'n=9', 'kind:gated', 'kind:upper_rows', 'kind:gate_fold'],
                          'models': ['dc:some', 'string_form', 'value_form']},
 }
